@@ -169,18 +169,21 @@ impl Space for LibToRef {
 }
 
 struct RefToLib {
+    quick: bool,
     shifts: Vec<u16>,
     radices: Vec<u64>,
     scratch: Scratch,
 }
 // axes: texture(6) method(3) crypto(3) single_unit(2) listfile(2) hash_size(2) shift version(2)
-// thorough adds: sector checksums {none, raw checksum sector, compressed checksum sector}, user-data prefix {none, 1024 bytes},
-// deleted hash slots {none, every third slot of the first 48}
+// plus sector checksums {none, raw checksum sector, compressed checksum sector}, user-data prefix {none, 1024 bytes},
+// deleted hash slots {none, every third slot of the first 48 + the home slot of every second file}: quick moves the three together, thorough takes the product
 impl RefToLib {
     fn new(tier: Tier) -> Self {
         let shifts: Vec<u16> = tier.pick(vec![0, 3], vec![0, 1, 3, 5, 8]);
-        let radices = vec![6, 3, 3, 2, 2, 2, shifts.len() as u64, 2, tier.pick(1, 3), tier.pick(1, 2), tier.pick(1, 2)];
-        RefToLib { shifts, radices, scratch: Scratch::new("c02b") }
+        // quick: the three extra axes move together through {none, raw checksums + prefix + deleted slots,
+        // compressed checksums + prefix + deleted slots}; thorough: their full product
+        let radices = vec![6, 3, 3, 2, 2, 2, shifts.len() as u64, 2, 3, tier.pick(1, 2), tier.pick(1, 2)];
+        RefToLib { quick: tier == Tier::Quick, shifts, radices, scratch: Scratch::new("c02b") }
     }
 }
 impl Space for RefToLib {
@@ -188,13 +191,21 @@ impl Space for RefToLib {
         gen::product(&self.radices)
     }
     fn describe(&self, i: u64) -> Value {
-        let d = gen::mixed_radix(i, &self.radices);
+        let mut d = gen::mixed_radix(i, &self.radices);
+        if self.quick && d[8] > 0 {
+            d[9] = 1;
+            d[10] = 1;
+        }
         json!({"direction": "reference writes, library reads", "texture": gen::TEXTURES[d[0] as usize], "method": (["none","zlib","bzip2"][d[1] as usize]),
                "crypto": CRYPTO_NAMES[d[2] as usize], "single_unit": d[3]==1, "listfile": d[4]==0, "hash_size": ([512,1024][d[5] as usize]), "shift": self.shifts[d[6] as usize], "version": format!("V{}", d[7]+1),
                "sector_crc": (["none","raw checksum sector","compressed checksum sector"][d[8] as usize]), "userdata_prefix": d[9]==1, "deleted_hash_slots": d[10]==1})
     }
     fn run(&self, i: u64) -> CaseResult {
-        let d = gen::mixed_radix(i, &self.radices);
+        let mut d = gen::mixed_radix(i, &self.radices);
+        if self.quick && d[8] > 0 {
+            d[9] = 1;
+            d[10] = 1;
+        }
         let mut r = CaseResult::new();
         r.key = format!("R{i}");
         r.nontrivial = true;
@@ -212,7 +223,24 @@ impl Space for RefToLib {
             hash_size: [512, 1024][d[5] as usize],
             listfile: d[4] == 0,
             userdata_prefix: if d[9] == 1 { 1024 } else { 0 },
-            deleted_slots: if d[10] == 1 { (0..48).step_by(3).collect() } else { vec![] },
+            // deleted markers: every third slot of the first 48 AND the home slot of every second file, so that
+            // those files sit behind a deleted marker in their own probe sequence (only a never-used entry ends it)
+            deleted_slots: if d[10] == 1 {
+                let hs = [512u32, 1024][d[5] as usize];
+                let mut v: Vec<u32> = (0..48).step_by(3).collect();
+                for (k, (n, _)) in files.iter().enumerate() {
+                    if k % 2 == 0 {
+                        v.push(refimpl::mpqcrypt::hash_name(n.replace('/', "\\").as_bytes(), 0) & (hs - 1));
+                    }
+                }
+                v.sort();
+                v.dedup();
+                v
+            } else {
+                vec![]
+            },
+            // the writer walks past the markers (it need not reuse them), so the marked files really sit behind one
+            reuse_deleted: d[10] != 1,
         };
         let ext = mpqref::WExt { sector_crc: d[8] > 0, crc_sector_compressed: d[8] == 2 };
         let bytes = mpqref::write_with(&wf, &opt, &ext).expect("reference writer");
